@@ -177,21 +177,21 @@ def TEXTJOIN(delimiter, ignore_empty, *args):
 def LEFT(text, num_chars=1):
     if num_chars < 0 or not isinstance(text, string_types):
         return error.VALUE
-    return text[:num_chars]
+    return text[:utils.whole(num_chars)]
 
 
 @dispatcher.register_for('RIGHT', 'RIGHTB')
 def RIGHT(text, num_chars=1):
     if num_chars < 0 or not isinstance(text, string_types):
         return error.VALUE
-    return text[max(len(text) - num_chars, 0):]
+    return text[max(len(text) - utils.whole(num_chars), 0):]
 
 
 @dispatcher.register_for('MID', 'MIDB')
 def MID(text, start_num, num_chars=1):
     if start_num < 1 or num_chars < 0 or not isinstance(text, string_types):
         return error.VALUE
-    return text[start_num - 1:][:num_chars]
+    return text[utils.whole(start_num) - 1:][:utils.whole(num_chars)]
 
 
 @dispatcher.register_for('TEXT')
